@@ -15,7 +15,8 @@ var fileProfile = map[string]string{
 	"intr_protosize.go":    "poolsync",
 	"intr_proto_adm.go":    "admission",
 	"intr_json.go":         "admission",
-	"intr_proto_ledger.go": "ledger",
+	"intr_ledger_proto.go": "ledger",
+	"intr_ledger_json.go":  "ledger",
 	"intr_opaque.go":       "ledger",
 }
 
